@@ -171,13 +171,22 @@ def gen_random(rng, profile):
         pid[0] += 1
         return pid[0]
 
+    def wrong_flag():
+        # wrong-typed send through one of the public entry points (send_message / cast / call,
+        # on the cell or on an ActorRef::<Wrong>::from(cell))
+        return "w" + str(rng.randrange(0, 7))
+
+    def via_flag():
+        # correctly typed sends mostly through ActorCell::send_message, sometimes cast / call
+        return str(rng.randrange(1, 7)) if rng.random() < 0.3 else ""
+
     def leaf_call(depth):
         r = rng.random()
         if r < 0.55:
             if depth < 2 and rng.random() < 0.3:
                 return S(new_pid(), "", [leaf_call(depth + 1)] if rng.random() < 0.5 else [],
                          [leaf_call(depth + 1)] if rng.random() < 0.5 else [])
-            return S(new_pid(), "w" if rng.random() < 0.05 else "")
+            return S(new_pid(), wrong_flag() if rng.random() < 0.06 else via_flag())
         if r < 0.85:
             return D
         if r < 0.95:
@@ -187,12 +196,14 @@ def gen_random(rng, profile):
     def msg(gated):
         flags = "g" if gated else ""
         r = rng.random()
-        if r < 0.04:
-            flags += "w"
+        if r < 0.06:
+            flags += wrong_flag()
         elif r < 0.08:
             flags += "b"
         elif r < 0.11 and profile == "order":
             flags += "f"
+        if "w" not in flags:
+            flags += via_flag()
         box, h = [], []
         pb = 0.25 if profile == "drain" else 0.1
         ph = 0.2 if profile == "drain" else 0.35
@@ -253,6 +264,12 @@ CORPUS = [
     [("do", S(1, "w")), ("do", S(2, "b")), ("do", S(3, "f")), ("do", S(4)), ("run",), ("do", S(5)), ("do", D), ("run",)],
     # kill from a handler; parked sender released after the actor died
     [("start", S(1, "g")), ("do", S(2, "", [], [K])), ("do", D), ("run",), ("rel", 0), ("do", S(3)), ("run",)],
+    # wrong-typed send_message / cast / call through every public entry point (cell, typed ActorRef built from
+    # the cell, rpc::cast / rpc::call, call with timeout): rejected, actor undisturbed, later traffic handled
+    [("do", S(1))] + [("do", S(2 + k, f"w{k}")) for k in range(7)] + [("do", S(9)), ("run",), ("do", S(10, "3")), ("run",)],
+    # correctly typed cast / call (with and without timeout) from the driver, a handler and a parked thread
+    [("do", S(1, "3")), ("do", S(2, "4")), ("start", S(3, "g6", [S(4, "w3")])), ("do", S(5, "2", [], [S(6, "w4"), S(7, "4")])),
+     ("run",), ("rel", 0), ("do", D), ("do", S(8, "3")), ("run",)],
     # drain while a sender is parked, actor runs in between, then release
     [("do", S(1)), ("start", S(2, "g")), ("do", D), ("run",), ("do", S(3)), ("rel", 0), ("run",), ("do", D), ("run",)],
 ]
